@@ -278,6 +278,9 @@ class HostileRules(Rule):
                 if d.fired and d.fired.get("pkt") is not None:
                     ctx += ":" + d.fired["pkt"].type
             L.violate("C16", "X1", "%s:%s:%s" % (d.kind, ctx, e[1]), "exception escaped a %s dispatch (%s): %s %s" % (d.kind, ctx, e[1], e[2]))
+        if d.conn is not None and getattr(d.conn, "had_ambiguous", False):
+            L.probe("ambiguous_frame_seen")
+            return
         if d.kind == "data" and not d.desync and d.conn is not None and getattr(d.conn, "had_malformed", False) \
                 and not any(fx["tag"] == "malformed" for fx in d.frame_fx):
             # later dispatches of a connection that was fed a malformed packet: every delivery
